@@ -245,8 +245,14 @@ def apply_presentation(fn, pres, values, ctx):
     for i in range(steps):
         if ctx is not None and pres["ctx_pos"] == i:
             g = g.with_context_args(build(ctx, shuf))
-        g = g.partial(*[build(values[n], shuf) for n in pres["chunks"][i]],
-                      **{n: build(values[n], shuf) for n in pres["kwsteps"][i]})
+        parent = g
+        later = [n for ks in pres["kwsteps"][i:] for n in ks]
+        if later and shuf.random() < 0.5:  # a sibling partial of the same parent, bound to other values, and dropped
+            parent.partial(**{n: "sibling-%s" % n for n in shuf.sample(later, min(len(later), 2))})
+        g = parent.partial(*[build(values[n], shuf) for n in pres["chunks"][i]],
+                           **{n: build(values[n], shuf) for n in pres["kwsteps"][i]})
+        if later and shuf.random() < 0.5:  # ... or derived after the one that is used
+            parent.partial(**{n: "sibling-%s" % n for n in shuf.sample(later, min(len(later), 2))})
     if ctx is not None and pres["ctx_pos"] == steps:
         g = g.with_context_args(build(ctx, shuf))
     args = [build(values[n], shuf) for n in pres["chunks"][-1]]
